@@ -133,9 +133,52 @@ def ratAvg (xs : List Rat) : Rat := ratSum xs / (xs.length : Rat)
 def ratVariance (xs : List Rat) : Rat :=
   ratSum (xs.map (fun x => (x - ratAvg xs) * (x - ratAvg xs))) / (xs.length : Rat)
 
+/-- one aggregate column fed with the (group key, argument value) pairs of the passing records, in input order -/
+def foldIncr (c : AggCol) : List (List Val × Val) → Except ErrKind AggCol
+  | [] => .ok c
+  | (k, v) :: rest => do let c' ← c.increment k v; foldIncr c' rest
+
+/-- the argument values of one group, in input order -/
+def groupVals (kvs : List (List Val × Val)) (key : List Val) : List Val :=
+  (kvs.filter (fun p => p.1 = key)).map (·.2)
+
+/-- the numbers a numeric aggregate sees: numeric strings converted, numbers as they are -/
+def numOfVal (asStr : Bool) (v : Val) : Option Rat :=
+  match asStr, v with
+  | true, .at (.str s) => parseNumStr s
+  | false, .at (.num q) => some q
+  | _, _ => none
+
 /-- UPDATE (C05): simultaneous assignment — every right-hand side sees the original record -/
 def simultaneousAssign (assigns : List (Nat × Ex Val)) (e : Env) (recA : Row) : Except ErrKind Row := do
   let vals ← assigns.mapM (fun p => do let v ← p.2 e; pure (p.1, v))
   vals.foldlM (fun up p => safeSet up p.1 p.2) recA
+
+/-- UPDATE, one input record: emitted unchanged when WHERE is falsy or (with a join) it has no partner;
+otherwise the assignments are applied to a copy, the right-hand sides seeing the original record and
+NU already counting this record; more than one partner is an error naming the record.
+Returns the emitted record and the new NU. -/
+def updateOneSpec (q : SemQuery) (B : Table) (nr nu : Nat) (recA : Row) : Except EngErr (Row × Nat) := do
+  let envs ← (match q.join with
+    | none => pure [({ nr := nr, a := recA } : Env)]
+    | some _ => expandRecord q B nr recA)
+  match envs with
+  | [] => pure (recA, nu)
+  | [e] =>
+    let e := { e with nu := nu }
+    let pass ← liftErr nr (match q.where_ with | some w => w e | none => .ok true)
+    if pass then do
+      let up ← liftErr nr (applyAssigns q.assigns { e with nu := nu + 1 } recA)
+      pure (up, nu + 1)
+    else pure (recA, nu)
+  | _ => .error (.runtime nr none)
+
+/-- UPDATE, whole table: one output record per input record, in order -/
+def updateSpec (q : SemQuery) (B : Table) : Table → Nat → Nat → Except EngErr (List Row)
+  | [], _, _ => .ok []
+  | recA :: rest, nr, nu => do
+    let (row, nu') ← updateOneSpec q B (nr + 1) nu recA
+    let tl ← updateSpec q B rest (nr + 1) nu'
+    pure (row :: tl)
 
 end Rbql
